@@ -45,7 +45,8 @@ PROP = dict(
         "child_extends_prefix, convert_shard_ident (0..63), anycast_rewrite (depths 1..30) on 64/32-bit wrap-around "
         "arithmetic; raw_roundtrip (all int32 x 256-bit), raw_short_hex (zero-fill), human_roundtrip (int8 x 4 flag "
         "combinations x both alphabets), human/tlb_workchain_truncated, parse_dispatch, json_roundtrip, tl_roundtrip, "
-        "tlb_roundtrip, tlb_bits_roundtrip, adnl_base32_roundtrip, and single_char_rejected (every 48-character valid "
+        "tlb_roundtrip, tlb_bits_roundtrip, adnl_base32_roundtrip, parse_address_flags (root package tongo.ParseAddress: id and "
+        "bounce flag survive print->parse), and single_char_rejected (every 48-character valid "
         "string x 48 positions x 63 other digit values is rejected) via CRC linearity. Tie: the integer code of "
         "ton/shards.go, ton/block.go, the anycast arithmetic of ton/account.go, utils.Crc16/Crc16String step and the "
         "256-entry TABLE are REGENERATED from the Go source on every run (X4) and proved equal to the hand model "
